@@ -58,6 +58,8 @@ def start_builder(case):
     Q = qclass(case["cls"])
     kind, tname = case["start"]
     tbl = Table(tname)
+    if kind == "builder":      # nothing chosen yet: into() / from_() / select() come as calls
+        return Q._builder(), tbl
     if kind == "into":
         return Q.into(tbl), tbl
     if kind == "update":
@@ -85,6 +87,12 @@ def apply_calls(q, tbl, calls):
             q = q.where(tf.build(call[1]))
         elif k == "limit":
             q = q.limit(call[1])
+        elif k == "into":
+            q = q.into(tbl if call[1] == tbl._table_name else Table(call[1]))
+        elif k == "from":
+            q = q.from_(Table(call[1]))
+        elif k == "select":
+            q = q.select(*[tf.build(t) for t in call[1]])
         else:
             raise ValueError(k)
     return q
@@ -220,6 +228,12 @@ def coq_call(call, tname):
         return "(KWhere %s)" % tf.coq(call[1])
     if k == "limit":
         return "(KLimit %s)" % Zc(call[1])
+    if k == "into":
+        return "(KInto %s)" % tref(call[1])
+    if k == "from":
+        return "(KFrom %s)" % tref(call[1])
+    if k == "select":
+        return "(KSel %s)" % L([tf.coq(t) for t in call[1]])
     raise ValueError(k)
 
 
@@ -242,7 +256,7 @@ def modelled(case):
 
 def coq_b(case, outcome, calls=None):
     kind, tname = case["start"]
-    start = {"into": "SInto", "update": "SUpdate", "delete": "SDelete"}[kind]
+    start = {"into": "SInto", "update": "SUpdate", "delete": "SDelete", "builder": "SBuilder"}[kind]
     calls = L([coq_call(c, tname) for c in (case["calls"] if calls is None else calls)])
     if "build_exc" in outcome:
         built, txt = '(Err %s)' % S(outcome["build_exc"]), '(Err "")'
@@ -254,7 +268,8 @@ def coq_b(case, outcome, calls=None):
             L([S(x) for x in d["cols"]]), L([L([S(x) for x in row]) for row in d["vals"]]),
             L([P(S(a), S(b)) for a, b in d["upds"]]), B(d["replace"]), B(d["ior"]))
         txt = "(Ok %s)" % S(outcome["text"]) if "text" in outcome else "(Err %s)" % S(outcome["text_exc"])
-    return "(CaseB %s (%s %s) %s %s %s)" % (qf.CLS_CTOR[case["cls"]], start, tref(tname), calls, built, txt)
+    st = "SBuilder" if kind == "builder" else "(%s %s)" % (start, tref(tname))
+    return "(CaseB %s %s %s %s %s)" % (qf.CLS_CTOR[case["cls"]], st, calls, built, txt)
 
 
 def coq_f(case, outcome):
